@@ -840,6 +840,54 @@ func c02concurrentCase(c *vf.Ctx, i int) {
 }
 
 // ---------------------------------------------------------------------------
+// stream "params-object-reused": the caller keeps ONE chaincfg.Params object,
+// decodes with it, changes its prefixes (a wallet switching its SLP prefix, a
+// test harness re-using a template) and decodes again.  What is accepted must
+// follow the fields as they are at the time of the call.
+
+func c02paramsReusedCase(c *vf.Ctx, i int) {
+	r := c.R
+	base := allNets[[]int{0, 1, 4, 5}[i%4]].P
+	p := *base // a private copy: the library's own objects are never modified
+	net := netInfo{"reused-" + allNets[[]int{0, 1, 4, 5}[i%4]].Name, &p}
+	kind := [][2]int{{0x00, 20}, {0x08, 20}, {0x0b, 32}}[(i/4)%3]
+	sym := ref.Pack8to5(append([]byte{byte(kind[0])}, randHash(r, kind[1])...))
+	alts := []string{"etoken", "simpleledger", "slptest", "xyz", "", "bitcoincash", "ecash", "bchtest"}
+	seen := map[string]bool{}
+	probe := func(stage string) {
+		for _, pre := range []string{p.CashAddressPrefix, p.SlpAddressPrefix, base.SlpAddressPrefix, base.CashAddressPrefix, "etoken", "ecash"} {
+			if pre == "" {
+				continue
+			}
+			seen[pre] = true
+		}
+		for pre := range seen {
+			body := ref.CashEncodeSymbols(pre, sym)
+			c02verify(c, "params-object-reused", "params-object-reused/"+stage, "prefixed", pre+":"+body, net)
+			c02verify(c, "params-object-reused", "params-object-reused/"+stage, "bare", body, net)
+			c02verify(c, "params-object-reused", "params-object-reused/"+stage, "upper", asciiUpper(pre+":"+body), net)
+		}
+	}
+	probe("initial")
+	for step := 0; step < 3; step++ {
+		switch r.Intn(3) {
+		case 0:
+			p.SlpAddressPrefix = alts[r.Intn(len(alts))]
+		case 1:
+			p.CashAddressPrefix = []string{"bitcoincash", "ecash", "bchtest", "xec"}[r.Intn(4)]
+		default:
+			p.SlpAddressPrefix, p.CashAddressPrefix = alts[r.Intn(len(alts))], []string{"bitcoincash", "ecash", "bchreg"}[r.Intn(3)]
+		}
+		if p.SlpAddressPrefix == p.CashAddressPrefix {
+			p.SlpAddressPrefix = ""
+		}
+		c.Inc("params_object_changed_between_calls")
+		probe(fmt.Sprintf("after-change-%d", step+1))
+	}
+	c.Nontrivial(vf.Mix(0xc0e, uint64(i), vf.HashBytes(sym)))
+}
+
+// ---------------------------------------------------------------------------
 // stream "legacy": Base58Check over all version bytes x payload lengths 0..40
 
 const c02legacyEnum = 256 * 41
@@ -1120,6 +1168,7 @@ func init() {
 			{Name: "confusables", N: func(t vf.Tier) int { return t.Sz(40000, 400000) }, Run: c02confusableCase},
 			{Name: "compensated", N: func(t vf.Tier) int { return t.Sz(6000, 120000) }, Run: c02compensatedCase},
 			{Name: "cross-prefix-concurrent", Workers: 4, N: func(t vf.Tier) int { return t.Sz(360, 3600) }, Run: c02concurrentCase},
+			{Name: "params-object-reused", N: func(t vf.Tier) int { return t.Sz(1200, 12000) }, Run: c02paramsReusedCase},
 			{Name: "bit-alias", N: func(t vf.Tier) int { return t.Sz(3000, 60000) }, Run: c02bitAliasCase},
 			{Name: "legacy", N: func(t vf.Tier) int { return c02legacyEnum + t.Sz(10000, 400000) }, Run: c02legacyCase},
 			{Name: "pubkeys", N: func(t vf.Tier) int { return 64 + t.Sz(600, 8000) }, Run: c02pubkeyCase},
